@@ -120,9 +120,9 @@ Reply(s, k, cls, exp) ==
          \/ Count(k, reqs[k].fails, reqs[k].extra + 1)
          \/ \E st \in Statuses \ {"Timeout"} : Complete(k, st, AnyRes, FALSE, cls)
 
-\* one tick of the timeout monitor
-Tick ==
-  \E T \in SUBSET {k \in Pending : age[k] + 1 >= MinTicks} :
+\* one tick of the timeout monitor: the lookups in T time out
+TickOf(T) ==
+    /\ T \subseteq {k \in Pending : age[k] + 1 >= MinTicks}
     /\ {k \in Pending : age[k] + 1 >= MaxTicks} \subseteq T
     /\ out' = {[k |-> k, st |-> "Timeout", res |-> AnyRes, src |-> "tick"] : k \in T}
     /\ cbn' = [k \in DOMAIN cbn |-> IF k \in T THEN cbn[k] + 1 ELSE cbn[k]]
@@ -132,6 +132,7 @@ Tick ==
     /\ reqs' = Drop(reqs, T)
     /\ age' = [k \in Pending \ T |-> age[k] + 1]
     /\ UNCHANGED <<srv, nreq, canc, win>>
+Tick == \E T \in SUBSET Pending : TickOf(T)
 
 \* ------------------------------------------------------------------ model checking
 NextReq == nreq < MaxReq /\ Request
